@@ -32,6 +32,14 @@ class NS:
     def pre(ns, obj):
         return old_view(obj, ns._seg)
 
+    def since(ns, obj):
+        """view at the latest of: function entry, last resume after a yield, last world-havoc loop head - the start
+        of the current uninterrupted stretch of the function's OWN steps (use for two-state clauses in functions
+        whose yields sit inside a cut loop)"""
+        from . import ctx as _ctx
+        st = getattr(_ctx.cur(), "seg_state", None)
+        return old_view(obj, st if st is not None else ns._seg)
+
 
 def _engine_error(e):
     msg = str(e)
@@ -337,6 +345,7 @@ def run_path(contract, c, state):
     s._old = c.heap.snapshot()
     s._seg = s._old
     c.pre_state = s._old
+    c.seg_state = s._old
     # ---- run
     call_args, call_kw = [], {}
     try:
